@@ -202,6 +202,7 @@ def fam_manager(rng, pid, count, fills=(False,), has=(False,), lifes=(None,), he
             sc["prog"] = prog
         if tz:
             sc["tz"] = tz
+            sc["form"] = rng.choice(["candle", "candle", "dict", "dict_iso", "candle_iso", "list"])
         out.append(sc)
     return out
 
@@ -232,7 +233,8 @@ def fam_transitions(rng, pid, count):
                          start_on=rng.random() < 0.5)
         pre, chunks = compositions(rng, n, (0, 1, 2, n), 4)
         out.append({"id": f"{pid}/dst/{tz}/{day}/{tf}/{t}", "fam": "manager", "obj": "ind", "inds": [cfg],
-                    "stream": st, "prog": prog_for(pre, chunks), "twins": [], "tz": tz, "base": day})
+                    "stream": st, "prog": prog_for(pre, chunks), "twins": [], "tz": tz, "base": day,
+                    "form": rng.choice(["candle", "candle", "dict", "dict_iso", "list"])})
     return out
 
 
@@ -292,7 +294,7 @@ def scenarios(pid, tier, rng):
     if pid == "C13":
         return fam_interference(rng, pid, k(90, 1000))
     if pid == "C19":
-        return fam_reads(rng, pid, k(200, 1200), forms=("candle", "dict", "list", "list_ts_last"))
+        return fam_reads(rng, pid, k(200, 1200), forms=("candle", "dict", "list", "list_ts_last", "dict_iso"))
     if pid == "C20":
         return fam_reads(rng, pid, k(220, 1300), touches=False)
     if pid == "C08":
@@ -581,6 +583,10 @@ def fam_reads(rng, pid, count, forms=("candle",), touches=True):
         cfgs = [IndCfg(k, **dict(p, timeframe=(tf if (j == 1 or not hexobj) else None))) for j, (k, p) in enumerate(picks)]
         if hexobj and rng.random() < 0.5:
             cfgs.append(rand_cfg(rng, "SMA", tf=pick_tf(rng)))
+        if rng.random() < 0.3:
+            # labels the user chooses may contain a dot; the stored name must stay one key
+            lab = rng.choice([{"name_suffix": "v1.5"}, {"fullname_override": "my.fast"}, {"name_suffix": "a.b"}])
+            cfgs[0].extra = dict(cfgs[0].extra, **lab)
         cfgs = _uniq(cfgs)
         names = [c.build(standalone=not hexobj).name for c in cfgs]
         kinds = [c.kind for c in cfgs]
@@ -736,6 +742,19 @@ def fam_movement(rng, pid, count):
         mul, add = rng.choice([(1, 0), (1, 0), (2, 0), (10, 0), (0.5, 0), (1, 100), (1, 1)])
         stream, readings = _transform(stream, readings, mul, add)
         idxs = list(range(n))
+        if t % 4 == 1:
+            # the series are candle fields, with values that are exactly 0 (no volume; a low on zero)
+            lo = min(x[3] for x in stream)
+            stream = [(ts, o - lo, h - lo, l - lo, c - lo, v) for ts, o, h, l, c, v in stream]
+            fields = rng.sample(["volume", "low", "close", "open", "high"], 2)
+            rd = [("an", fn, fields[0] if a_ in ("a", "") else fields[1], fields[1] if b_ in ("b", "") else fields[0], L, i, var)
+                  for (_, fn, a_, b_, L, i, var) in _calls(rng, n, MOVE1 + MOVE2, idxs, [1, 2, 3, 4, None], per=1)]
+            rd += [("geo", i) for i in idxs]
+            rng.shuffle(rd)
+            out.append({"id": f"{pid}/fields/{t}", "fam": "analysis", "obj": "list", "inds": [], "stream": stream,
+                        "readings": [{} for _ in range(n)], "prog": [("new", n), ("reads", rd)], "twins": [],
+                        "clause_props": AN_PROPS})
+            continue
         rd = _calls(rng, n, MOVE1 + MOVE2, idxs, [1, 1, 2, 3, 4, 5, None], per=1)
         rd += _calls(rng, n, ("positive", "negative"), idxs, [None], per=1)
         rd += [("geo", i) for i in idxs]
